@@ -1150,6 +1150,8 @@ func TestVxC09SessionRoutingKey(t *testing.T) {
 			if c.Proto < 4 {
 				c.Proto = 4
 			}
+			c.Cache = rapid.SampledFrom([]int{0, 0, 1, 2}).Draw(t, "cache")
+			c.Decoy = rapid.SampledFrom([]int{0, 1, 2, 3}).Draw(t, "decoy")
 			return c
 		},
 		New: func() interface{} { return &vxC09RKCase{} },
@@ -1202,6 +1204,12 @@ func TestVxC09SessionRoutingKey(t *testing.T) {
 			k.Class(fmt.Sprintf("components=%d", n))
 			cl := vnode.NewCluster(vxSpecs(1, 1))
 			cl.Nodes()[0].Handler = func(rc *vnode.ReqCtx) {
+				if rc.Req.Kind == "PREPARE" && strings.Contains(rc.Req.Statement, " FROM d ") {
+					rc.Reply(&cqlspec.Response{Kind: "PREPARED", PreparedIDHex: "dd", Meta: &cqlspec.Metadata{Columns: []cqlspec.Column{
+						{Keyspace: "ks1", Table: "d", Name: "x", Type: cqlspec.Scalar(cqlspec.Varchar)}, {Keyspace: "ks1", Table: "d", Name: "k", Type: cqlspec.Scalar(cqlspec.Int)}},
+						PKIndexes: []int{1}, GlobalSpec: true, Keyspace: "ks1", Table: "d"}, ResultMeta: &cqlspec.Metadata{Columns: []cqlspec.Column{}}})
+					return
+				}
 				if rc.Req.Kind == "PREPARE" {
 					rc.Reply(&cqlspec.Response{Kind: "PREPARED", PreparedIDHex: "aa", Meta: &cqlspec.Metadata{Columns: cols, PKIndexes: c.Idx, GlobalSpec: true, Keyspace: "ks1", Table: "t"},
 						ResultMeta: &cqlspec.Metadata{Columns: []cqlspec.Column{}}})
@@ -1209,11 +1217,32 @@ func TestVxC09SessionRoutingKey(t *testing.T) {
 				}
 				rc.Reply(vxVoid())
 			}
-			s, err := vxClusterConfig(cl, c.Proto, nil).CreateSession()
+			s, err := vxClusterConfig(cl, c.Proto, func(cfg *ClusterConfig) {
+				if c.Cache > 0 {
+					cfg.MaxRoutingKeyInfo = c.Cache
+				}
+			}).CreateSession()
 			if err != nil {
 				return fmt.Errorf("harness: CreateSession: %v", err)
 			}
 			defer s.Close()
+			// another statement with another key layout (its routing key is the int bound second)
+			decoy := func(when string) error {
+				got, err := s.Query("SELECT * FROM d WHERE x = ? AND k = ?", "x", 41).GetRoutingKey()
+				if err != nil {
+					return fmt.Errorf("GetRoutingKey of the other statement (%s) failed: %v", when, err)
+				}
+				if !bytes.Equal(got, []byte{0, 0, 0, 41}) {
+					return fmt.Errorf("GetRoutingKey of the other statement (%s, MaxRoutingKeyInfo %d) = %x, want 00000029", when, c.Cache, got)
+				}
+				return nil
+			}
+			if c.Decoy&1 != 0 {
+				k.Class("another statement asked first")
+				if err := decoy("before"); err != nil {
+					return err
+				}
+			}
 			stmt := "SELECT * FROM t WHERE " + strings.TrimSuffix(strings.Repeat("c = ? AND ", c.NVals), " AND ")
 			q := s.Query(stmt, values...)
 			got, err := q.GetRoutingKey()
@@ -1223,6 +1252,12 @@ func TestVxC09SessionRoutingKey(t *testing.T) {
 			want := cqlspec.RoutingKey(encs)
 			if !bytes.Equal(got, want) {
 				return fmt.Errorf("GetRoutingKey() = %x, want %x (components %v bound at %v)", got, want, c.Comps, c.Idx)
+			}
+			if c.Decoy&2 != 0 {
+				k.Class("another statement asked in between")
+				if err := decoy("in between"); err != nil {
+					return err
+				}
 			}
 			// second use of the same Query object: Bind other values (the low bit of every numeric / textual
 			// component flipped), the routing key must follow
@@ -1257,6 +1292,9 @@ func TestVxC09SessionRoutingKey(t *testing.T) {
 			}
 			if want2 := cqlspec.RoutingKey(encs2); !bytes.Equal(got2, want2) {
 				return fmt.Errorf("the same Query bound again: GetRoutingKey() = %x, want %x (first binding gave %x)", got2, want2, got)
+			}
+			if !bytes.Equal(got, want) {
+				return fmt.Errorf("the key returned by the first GetRoutingKey() has become %x after the second call; it was %x", got, want)
 			}
 			return nil
 		},
